@@ -130,7 +130,7 @@ func genMetricsHistory(r *rand.Rand, quick bool) *plan.Plan {
 	}
 	p := &plan.Plan{Knobs: k, Params: map[string]any{}}
 	sers := genSeriesSet(r, 2+r.IntN(10))
-	inc := plan.Incarnation{Boot: "full", SchedSeed: r.Uint64() | 1}
+	inc := plan.Incarnation{Boot: "full", SchedSeed: r.Uint64()>>11 | 1}
 	metricsSeen := map[string]bool{}
 	queries := func() []plan.Op {
 		var ns []string
@@ -177,7 +177,7 @@ func genMetricsHistory(r *rand.Rand, quick bool) *plan.Plan {
 		case x < 8:
 			inc.Ops = append(inc.Ops, plan.Op{Kind: "shutdown"})
 			p.Incs = append(p.Incs, inc)
-			inc = plan.Incarnation{Boot: "full", SchedSeed: r.Uint64() | 1}
+			inc = plan.Incarnation{Boot: "full", SchedSeed: r.Uint64()>>11 | 1}
 			inc.Ops = append(inc.Ops, queries()...)
 		}
 	}
